@@ -168,6 +168,23 @@ def r2b_broker_get(cx):
                construct=" | ".join(U(r.value) for r in rets) or "(no return)")
 
 
+def r2c_broker_views(cx):
+    """The missing-dependency predicate mixes 'd in broker' (required) with set(group).intersection(broker) (groups, which *iterates* the broker):
+    both must see the same components, so membership, iteration and the key/item/value views are all the plain instance table."""
+    cx.rule("C02.R3", "missing = required deps absent from the broker + groups with no member present", floor=3)
+    m = cx.repo.module(DR)
+    want = {"__iter__": ("iter(self.instances)",), "keys": ("self.instances.keys()",), "items": ("self.instances.items()",), "values": ("self.instances.values()",),
+            "__contains__": ("component in self.instances", "%s in self.instances")}
+    for name, forms in want.items():
+        fn = m.func("Broker.%s" % name, "C02.R3")
+        rets = [r for r in walk_body(fn.body) if isinstance(r, ast.Return)]
+        ps = params(fn)
+        ok = len(rets) == 1 and (U(rets[0].value) in forms or (name == "__contains__" and len(ps) > 1 and U(rets[0].value) == "%s in self.instances" % ps[1])) \
+            and len([s_ for s_ in fn.body if not (isinstance(s_, ast.Expr) and isinstance(s_.value, ast.Constant))]) == 1
+        cx.require(ok, fn, "Broker.%s is the unfiltered view of the instance table (membership and iteration agree on what is present)" % name,
+                   construct=" | ".join(short(r) for r in rets) or "def %s" % name)
+
+
 def r3_iff(cx):
     cx.rule("C02.R3", "missing = required deps absent from the broker + groups with no member present", floor=3)
     m = cx.repo.module(DR)
@@ -422,8 +439,12 @@ def run(cx):
     cx.guard(r1_classification)
     cx.guard(r2_binding)
     cx.guard(r2b_broker_get)
+    cx.guard(r2c_broker_views)
     cx.guard(r3_iff)
     cx.guard(r4_process_order, mods)
     cx.guard(r5_enable)
     cx.guard(r6_invoke_overrides, mods)
     cx.guard(r7_reporting)
+    # 'requirements are met' is judged when the component's turn comes: that turn must come after its dependencies ran (order provenance, C01.R5)
+    from . import c01
+    cx.borrow(c01.r5_order_provenance, "C01.R5", "C02.R8", "a component is judged after its dependencies were attempted: the order handed to run_components is the toposort of the same graph (C01.R5)", mods)
